@@ -35,10 +35,16 @@ T3 == << "local", "x", "=", "1", "x", "+=", "1", "x", "..=", "'s'",
          "local", "s", "=", "`a{", "x", "}b`",
          "local", "y", "=", "if", "x", "then", "1", "elseif", "s", "then", "2", "else", "3",
          "return", "x", "//", "0b11", ",", "1_000" >>
-Templates == << T1, T2, T3 >>
+\* T4: separators after LAST statements (`return 1;`, `break;`), operands touching `..`, nested closing brackets
+T4 == << "do", "return", "1", ";", "end", "while", "a", "do", "break", ";", "end",
+         "a", "=", "b", "..", "2", "..", "c", "..", "'s'", "a", "=", "t", "[", "t", "[", "1", "]", "]", ";",
+         "if", "a", "then", "return", ";", "end", "return", "a", ",", "b", ";" >>
+Templates == << T1, T2, T3, T4 >>
 
 \* ---- trivia kinds
-Kinds == << " ", "\t", "\n", "\r\n", "  \n\n ", "--c\n", " --c\n", "--[[c]]", "--[=[ ]] ]=]", "--[[c\nd]] ", "", "--KEEP\n", "--[[ KEEP ]]", "--!x\n" >>
+\* (new kinds are appended: the indices of the first 14 are referred to by recorded replay files)
+Kinds == << " ", "\t", "\n", "\r\n", "  \n\n ", "--c\n", " --c\n", "--[[c]]", "--[=[ ]] ]=]", "--[[c\nd]] ", "", "--KEEP\n", "--[[ KEEP ]]", "--!x\n",
+            "--[==[c]==]", "--[===[ ]] ]=] ]==] ]===]", "--[==[c\nd]==] ", "--[=[c\nd]=]" >>
 NKinds == Len(Kinds)
 EofKinds == << "", "\n", "--c", "--[[c]]", " ", "\n\n" >>     \* after the last token: also a line comment without a final newline
 
@@ -51,6 +57,11 @@ Punct == {"(", ")", "{", "}", "]", ",", ";", "=", "#", "+", "*", "/", "%", "^", 
 TightOK(t1, t2) == (LastCh(t1) \in Punct \/ FirstCh(t2) \in Punct) /\ ~(LastCh(t1) \in {"=", "<", ">", "/"} /\ FirstCh(t2) \in {"=", "/"})
                    /\ ~(LastCh(t1) = "]" /\ FirstCh(t2) = "]") /\ ~(LastCh(t1) = "[" /\ FirstCh(t2) = "[") /\ ~(LastCh(t1) = "." \/ FirstCh(t2) = ".")
                    /\ ~(LastCh(t1) = "-" \/ FirstCh(t2) = "-")
+\* `..` may touch a neighbour that is not a numeral and does not itself start / end with a dot: `a..b`, `b..2`, `..'s'`
+Digits == {"0","1","2","3","4","5","6","7","8","9"}
+DotOK(t1, t2) == \/ (t2 = ".." /\ LastCh(t1) \notin Digits \cup {"."})
+                 \/ (t1 = ".." /\ FirstCh(t2) # ".")
+Tight(t1, t2) == TightOK(t1, t2) \/ DotOK(t1, t2)
 
 \* gaps: function from 0..n to trivia strings; default " " between tokens, "" at both ends
 RECURSIVE Join(_, _, _)
@@ -60,7 +71,7 @@ BaseGap(toks) == [i \in 0..Len(toks) |-> IF i = 0 \/ i = Len(toks) THEN "" ELSE 
 \* a trivia placed in gap i: between tokens it must keep them apart unless they may touch
 Place(toks, gap, i, tr) ==
   LET inner == i > 0 /\ i < Len(toks) IN
-  LET sepNeeded == inner /\ ~TightOK(toks[i], toks[i + 1]) IN
+  LET sepNeeded == inner /\ ~Tight(toks[i], toks[i + 1]) IN
   LET tr2 == IF tr = "" /\ sepNeeded THEN " "
              ELSE IF inner /\ Len(tr) >= 2 /\ SubSeq(tr, 1, 2) = "--" /\ LastCh(toks[i]) = "-" THEN " " \o tr     \* `- --c` not `---c`
              ELSE tr IN
